@@ -40,6 +40,10 @@ def skeletons(tier):
             out.append({"id": f"int-{w}", "ranks": [w], "params": {"frac": False}})
             if n <= (2 if tier == "quick" else 3):
                 out.append({"id": f"frac-{w}", "ranks": [w], "params": {"frac": True}})
+    # small absolute timestamps: the parser downcasts integer columns to the narrowest dtype that holds the values, so
+    # ts/dur may become int8/int16 columns whose sums must still be right (dtype width decided by the solver)
+    for w in (["O", "K", "OK", "RK", "KM"] if tier == "quick" else ["O", "K", "R", "OK", "RK", "KM", "OO", "KK", "OKR"]):
+        out.append({"id": f"small-{w}", "ranks": [w], "params": {"frac": False, "small": True}})
     pairs = [("O", "K"), ("OK", "RM"), ("MK", "TO"), ("OR", "O"), ("KI", "FO"), ("RK", "RK")]
     if tier == "thorough":
         ws = ["".join(w) for w in itertools.product("ORKTM", repeat=2) if set(w) & COMPLETE]
@@ -58,8 +62,9 @@ def build(sk):
         for i, ch in enumerate(w):
             ts, dur = f"$r{r}e{i}_ts", f"$r{r}e{i}_dur"
             # raw file timestamps are epoch based: up to 2^52 (exact in float64); durations up to 2^40
-            vars_[ts[1:]] = ["real" if frac else "int", 0, TG.T_EPOCH_MAX]
-            vars_[dur[1:]] = ["real" if frac else "int", 0, TG.T_MAX]
+            small = sk["params"].get("small")
+            vars_[ts[1:]] = ["real" if frac else "int", 0, 40000 if small else TG.T_EPOCH_MAX]
+            vars_[dur[1:]] = ["real" if frac else "int", 0, 40000 if small else TG.T_MAX]
             pid, tid = 100 + r, 200 + i
             if ch == "O":
                 e = TG.op("aten::mm", ts, dur, tid=tid, pid=pid)
@@ -132,6 +137,15 @@ def check_rows(ctx, df, inf, sym_table, shift, frac, tag, indexed):
 
 
 def run(ctx):
+    from symx import pdcore
+    pdcore.NARROW["symbolic"] = bool(ctx.sk["params"].get("small")) and ctx.mode == "sym"
+    try:
+        return _run(ctx)
+    finally:
+        pdcore.NARROW["symbolic"] = False
+
+
+def _run(ctx):
     sk = ctx.sk
     ranks, info, vars_ = build(sk)
     sk.setdefault("vars", {}).update(vars_)
